@@ -147,10 +147,13 @@ def run(ctx, report):
     # italic spans are balanced and cover exactly the text sent while italics were on
     from . import scc_italics
     report.section("italics pipeline", scc_italics.run, ctx, report, "6", 6 if ctx.tier == "thorough" else 4)
+    # rows -> lines / chunks, positions, text and italic extents of whole pop-on captions (buffer object folded)
+    from . import scc_buffer
+    report.section("pop-on buffer", scc_buffer.run, ctx, report, "4", ctx.tier == "thorough")
 
     report.not_decided.append(
-        "decoder behaviour over command sequences: doubling memory, extended-character back-space, "
-        "row adjacency vs repositioning, italic extent (state-machine runs, not decidable from shape)")
+        "decoder behaviour over command sequences beyond the folded scopes (captions of more than three rows, "
+        "extended-character back-space, back-space, background colours, re-addressing a row that already has text)")
     report.assume("reference tables in sa/spec/cea608.py transcribe CEA-608-E (bit layout of preamble address "
                   "codes, basic/special/extended character sets); where published tables differ both "
                   "readings are accepted")
